@@ -76,3 +76,41 @@ Proof.
   cbv beta iota zeta in H. cbn [rev] in H. rewrite app_nil_r in H. rewrite H. cbn [fst].
   now rewrite rev_app_distr, !rev_involutive.
 Qed.
+
+(* ---- split_links: generated monadic fold = recursive token model ---- *)
+From V Require Import Model.Links.
+Definition pend (nx : str) : option str := match nx with [] => None | _ => Some nx end.
+
+Lemma tie_split_links s : split_links s = split_links_model s.
+Proof.
+  unfold split_links, split_links_model.
+  match goal with |- context [fold_left ?f _ _] => set (F := f) end.
+  assert (Herr : forall toks e, fold_left F toks (Err e) = Err e).
+  { induction toks as [|t toks IH]; intros e; cbn [fold_left]; [reflexivity|]. apply IH. }
+  assert (G : forall toks nx out,
+    match fold_left F toks (Ok (nx, out)) with
+    | Ok (nx', out') => match (if negb (str_eqb nx' []) then Err E_ValueError else Ok tt) with
+                        | Ok _ => Ok out' | Err e => Err e end
+    | Err e => Err e
+    end = match split_tokens toks (pend nx) with Ok l => Ok (out ++ l) | Err e => Err e end).
+  { induction toks as [|t toks IH]; intros nx out.
+    - cbn [fold_left split_tokens]. destruct nx; cbn; [now rewrite app_nil_r|reflexivity].
+    - cbn [fold_left split_tokens]. unfold F at 2. cbv beta iota.
+      destruct (py_str_contains t [35%N]) eqn:Eh.
+      + change [HASH] with [35%N]. rewrite Eh.
+        destruct nx as [|c nx'].
+        * cbn [str_eqb negb pend].
+          destruct (py_link_fullmatch t) eqn:Em; cbn [negb].
+          -- rewrite IH. cbn [pend]. destruct (split_tokens toks None); [now rewrite <- app_assoc|reflexivity].
+          -- now rewrite Herr.
+        * cbn [str_eqb negb pend]. change ([SPACE] ++ t) with ([32%N] ++ t).
+          destruct (py_link_fullmatch ((c :: nx') ++ [32%N] ++ t)) eqn:Em; cbn [negb].
+          -- rewrite IH. cbn [pend]. destruct (split_tokens toks None); [now rewrite <- app_assoc|reflexivity].
+          -- now rewrite Herr.
+      + change [HASH] with [35%N]. rewrite Eh.
+        destruct nx as [|c nx'].
+        * cbn [str_eqb negb pend]. rewrite IH. destruct t; reflexivity.
+        * cbn [str_eqb negb pend]. now rewrite Herr. }
+  specialize (G (py_split_ws s) [] []). cbn [pend app] in G.
+  etransitivity; [exact G|]. destruct (split_tokens (py_split_ws s) None); reflexivity.
+Qed.
